@@ -100,7 +100,8 @@ def _perplexity_update(
         probs = probs[mask]
         target = target[mask]
 
-    probs = probs[:, target].diagonal()
+    # a uint8 index tensor would be interpreted as a boolean mask
+    probs = probs[:, target.long()].diagonal()
 
     sum_log_probs = -probs.log().sum()
     num_total = torch.tensor(target.size(0), device=target.device)
